@@ -755,8 +755,10 @@ Qed.
 
 (* ------------------------------------------------------------------------------------------ *)
 (* the disjunct-wise operations of Pointset_Powerset (add_constraint, affine_image, ...):
-   [keep_flag] = the C++ body does not reset `reduced' (add_space_dimensions_*, expand,
-   fold_space_dimensions, topological_closure_assign) *)
+   [keep_flag] = the C++ body does not reset `reduced': add_space_dimensions_and_embed / _project and
+   expand_space_dimension (order embeddings, [map_keep_wf]).  topological_closure_assign and
+   fold_space_dimensions used to keep it too (defect: closure / folding create comparabilities);
+   since /repo fd3faff and e7857d0 they reset it, i.e. they are [map_assign f false]. *)
 Definition map_assign (f : D -> D) (keep_flag : bool) (s : ps) : ps :=
   mk_ps (map f (seq s)) (if keep_flag then reduced s else false).
 
@@ -782,6 +784,48 @@ Proof.
     intros y Hy. apply in_map_iff in Hy. destruct Hy as [z [<- Hz]]. unfold incomparable. rewrite !He. now apply Rx.
   - intros y Hy. apply in_map_iff in Hy. destruct Hy as [z [<- Hz]]. rewrite Hb. now apply N.
 Qed.
+
+(* ------------------------------------------------------------------------------------------ *)
+(* Pointset_Powerset::strictly_contains(y): BOTH operands are omega-reduced (the argument too since
+   /repo 7722182), then every disjunct of y must be strictly contained in some disjunct of x.
+   [sc a b] is the base-level a.strictly_contains(b). *)
+Variable sc : D -> D -> bool.
+Hypothesis sc_sound : forall a b, sc a b = true -> forall p, den b p -> den a p.
+
+Fixpoint find_strict (yi : D) (xs : list D) : bool :=
+  match xs with [] => false | xj :: r => if sc xj yi then true else find_strict yi r end.
+Fixpoint all_strict (ys xs : list D) : bool :=
+  match ys with [] => true | yi :: r => if find_strict yi xs then all_strict r xs else false end.
+
+Definition strictly_contains_ps (hurry : nat -> bool) (x y : ps) : ps * ps * bool :=
+  let x' := omega_reduce hurry x in
+  let y' := omega_reduce hurry y in
+  (x', y', all_strict (seq y') (seq x')).
+
+Lemma find_strict_ok yi xs : find_strict yi xs = true -> exists xj, In xj xs /\ sc xj yi = true.
+Proof.
+  induction xs as [|xj r IH]; cbn [find_strict]; [discriminate|]. destruct (sc xj yi) eqn:E.
+  - intros _. exists xj. split; [now left|exact E].
+  - intros H. destruct (IH H) as [z [Hz Ez]]. exists z. split; [now right|exact Ez].
+Qed.
+
+Theorem strictly_contains_sound x y :
+  snd (strictly_contains_ps never x y) = true -> forall p, den_ps y p -> den_ps x p.
+Proof.
+  unfold strictly_contains_ps. cbn [snd]. intros H p Hp.
+  apply omega_reduce_union. apply (proj2 (omega_reduce_union y p)) in Hp. revert H p Hp. unfold den_ps.
+  generalize (seq (omega_reduce never x)). intros xs. induction (seq (omega_reduce never y)) as [|a r IH]; cbn [all_strict].
+  - intros _ p H. now apply den_l_nil in H.
+  - destruct (find_strict a xs) eqn:F; [|discriminate]. intros H p Hp. apply den_l_cons in Hp. destruct Hp as [Hp|Hp].
+    + destruct (find_strict_ok _ _ F) as [z [Hz Ez]]. exists z. split; [exact Hz|]. eapply sc_sound; eauto.
+    + now apply IH.
+Qed.
+
+(* both operands come back omega-reduced, with the same denotation *)
+Theorem strictly_contains_states x y p :
+  (den_ps (fst (fst (strictly_contains_ps never x y))) p <-> den_ps x p) /\
+  (den_ps (snd (fst (strictly_contains_ps never x y))) p <-> den_ps y p).
+Proof. unfold strictly_contains_ps. cbn [fst snd]. split; apply omega_reduce_union. Qed.
 
 (* ------------------------------------------------------------------------------------------ *)
 (* Pointset_Powerset::pairwise_reduce *)
